@@ -376,6 +376,77 @@ theorem stores_le_one_all_histories (dir : Option Nat) (r : RingSt) (h : List (C
 example : (runOpens (World.fresh none) [(.new, 7), (.withKey 7, 0), (.new, 8), (.unenc, 0), (.new, 9)]).stores = 1 := by
   decide
 
+/-- **a stored key that cannot be read is never replaced.**  While the keyring holds an entry that the store cannot hand
+    out (`rdfail`: `get_secret` fails with any error other than NoEntry, writes would succeed), `get_or_create_db_key`
+    answers with an error and stores nothing — a read ERROR is never taken for "no key" — whatever `generate()` would return -/
+theorem unreadable_key_never_replaced (w : World) (k fresh : Nat) (ni : Bool) (h : w.ring = .rdfail k ni) :
+    (getOrCreate w fresh).1 = w ∧
+    (getOrCreate w fresh).2 = .error (if ni then .keyringNotInitialized else .keyring) := by
+  simp [getOrCreate, getDbKey, h]
+
+theorem finishOpen_keeps_keyring (w : World) (key : Option Key) :
+    (finishOpen w key).1.ring = w.ring ∧ (finishOpen w key).1.stores = w.stores := by
+  unfold finishOpen
+  split
+  · exact ⟨rfl, rfl⟩
+  · split <;> exact ⟨rfl, rfl⟩
+
+theorem precreate_keeps_keyring (w : World) : (precreate w).1.ring = w.ring ∧ (precreate w).1.stores = w.stores := by
+  unfold precreate
+  cases w.file <;> cases w.dir <;> exact ⟨rfl, rfl⟩
+
+/-- … and no constructor call, on any file state, whatever key it presents or would generate, changes the keyring entry or
+    stores a key while the entry is unreadable -/
+theorem unreadable_key_survives_every_open (w : World) (c : Ctor) (k fresh : Nat) (ni : Bool) (h : w.ring = .rdfail k ni) :
+    (openDb w c fresh).1.ring = .rdfail k ni ∧ (openDb w c fresh).1.stores = w.stores := by
+  have hp := precreate_keeps_keyring w
+  cases c with
+  | withKey k' =>
+    simp only [openDb, ctorWithKey]
+    split
+    · exact ⟨h, rfl⟩
+    · have := finishOpen_keeps_keyring (precreate w).1 (some k')
+      exact ⟨this.1.trans (hp.1.trans h), this.2.trans hp.2⟩
+  | unenc =>
+    simp only [openDb, ctorUnenc]
+    have := finishOpen_keeps_keyring (precreate w).1 none
+    exact ⟨this.1.trans (hp.1.trans h), this.2.trans hp.2⟩
+  | new =>
+    simp only [openDb, ctorNew]
+    have hr : (precreate w).1.ring = .rdfail k ni := hp.1.trans h
+    rcases hq : precreate w with ⟨w1, pre⟩
+    rw [hq] at hr hp
+    simp only at hr hp
+    cases pre <;> simp [getOrCreate, getDbKey, hr, hp.2]
+
+/-- `new` opens nothing while the entry is unreadable -/
+theorem unreadable_key_new_opens_nothing (w : World) (k fresh : Nat) (ni : Bool) (h : w.ring = .rdfail k ni) :
+    (openDb w .new fresh).2.isOpened = false := by
+  have hp := precreate_keeps_keyring w
+  simp only [openDb, ctorNew]
+  have hr : (precreate w).1.ring = .rdfail k ni := hp.1.trans h
+  rcases hq : precreate w with ⟨w1, pre⟩
+  rw [hq] at hr
+  simp only at hr
+  cases pre <;> simp only [getOrCreate, getDbKey, hr] <;> rfl
+
+/-- for every history of constructor calls the unreadable entry is still there, and once it is readable again the database
+    that was encrypted under it opens with `new` as before -/
+theorem unreadable_key_all_histories (w : World) (k : Nat) (ni : Bool) (hist : List (Ctor × Key)) (h : w.ring = .rdfail k ni) :
+    (runOpens w hist).ring = .rdfail k ni ∧ (runOpens w hist).stores = w.stores := by
+  induction hist generalizing w with
+  | nil => exact ⟨h, rfl⟩
+  | cons a rest ih =>
+    obtain ⟨c, f⟩ := a
+    have h1 := unreadable_key_survives_every_open w c k f ni h
+    have := ih (openDb w c f).1 h1.1
+    simp only [runOpens]
+    exact ⟨this.1, this.2.trans h1.2⟩
+
+example : (openDb { World.fresh none with file := .enc 3 5, ring := .rdfail 3 false } .new 9).2 = .err .keyring ∧
+    (openDb { World.fresh none with ring := .rdfail 3 false } .new 9).2 = .err .keyring ∧
+    (openDb { World.fresh none with file := .enc 3 5, ring := .key 3 } .new 9).2 = .opened (some 3) 5 := by decide
+
 /-! ### behaviour the code has and a reader may not expect (each replayed on the implementation from
     `corpus/C13/`) -/
 
